@@ -1,3 +1,204 @@
-(* Properties/C08.v — placeholder while the proofs are being developed *)
-From CKT Require Import Model.CutFinder.
-Theorem c08_stub : True. Proof. exact I. Qed.
+(* Properties/C08.v — A reported minimum really is the minimum sampling overhead.
+   Only theorem statements (closed by `exact`), non-vacuity examples, facts obligation, Print Assumptions.
+
+   Vocabulary (defined in Proofs/BestFirstP.v and Proofs/BestFirstSpec.v):
+     fa_of i, nq_of i      the constant search arguments / number of qubits find_cuts derives from the request i
+     succ fa s s'          s' is one of the states  next_states fa s  returns (guarded actions, in registry order)
+     reach fa s g          reflexive-transitive closure of succ      goal fa g : all gates decided
+     start_of i            the start state of the best-first search: init_state with the wire-cut budget
+                           min(#gate inputs, ceil(log2(gamma_greedy + 1) - 1)) computed by CutOptimization.__init__
+     greedy_of fa nq       the greedy incumbent
+     assignment_cost nq W gate_lo wire_lo gates A = Some c
+                           SPECIFICATION: the assignment A (leave / gate / left / right / both per gate) uses permitted
+                           kinds only, every component of the wire-segment graph has at most W segments, and the product
+                           of the per-cut factors (gamma, 4, 4, 16) is c.  Independent of all search data structures.
+     pruning_sound_for ... every such assignment is matched in cost by the greedy incumbent or by a goal reachable from
+                           start_of i  (this is the statement c08_pruning_sound)
+     gammas_ok_in i        every gate gamma of the request is >= 1 (true for kappa of every QPD basis: C15; monitored) *)
+From Coq Require Import QArith String.
+From CKT Require Import Model.CutFinder Proofs.BestFirstP Proofs.BestFirstSpec Proofs.BestFirstFuel Extracted.Facts.
+Close Scope Q_scope.
+
+(* ---- (1) every action multiplies gamma_UB by a factor >= 1 ---- *)
+Theorem c08_action_factor : forall k s g W l, next_state_primitive k s g W = Val l ->
+  l = [] \/ exists s', l = [s'] /\ (gamma_UB s' == gamma_UB s * factor_of k g)%Q /\ level s' = level s.
+Proof. exact primitive_spec. Qed.
+
+Theorem c08_factor_ge_1 : forall k g, gamma_ok g -> (1 <= factor_of k g)%Q.
+Proof. exact factor_ge_1. Qed.
+
+Theorem c08_cost_monotone : forall fa s s', gammas_ok (fa_gates fa) -> succ fa s s' ->
+  exists f, (1 <= f)%Q /\ (cost s' == cost s * f)%Q /\ level s' = S (level s) /\ level s < length (fa_gates fa).
+Proof. exact succ_factor. Qed.
+
+(* ---- (2) generic best-first lemmas: X, cost, successor relation and invariant are arbitrary ---- *)
+Theorem c08_dijkstra : forall (X : Type) (gcost : X -> Q) (step : X -> X -> Prop) (ok : X -> Prop),
+  (forall x y, ok x -> step x y -> ok y) ->
+  (forall x y, ok x -> step x y -> (gcost x <= gcost y)%Q) ->
+  (* a cost-minimal frontier element is a lower bound for everything below the frontier (so the first goal popped
+     is a cheapest goal) *)
+  (forall (F : list X) (e : X), (forall f, In f F -> ok f) -> (forall f, In f F -> (gcost e <= gcost f)%Q) ->
+     forall g, (exists f, In f F /\ greach X step f g) -> (gcost e <= gcost g)%Q) /\
+  (* pruning a child above the incumbent u loses no goal with cost <= u *)
+  (forall (u : Q) (c g : X), ok c -> (u < gcost c)%Q -> greach X step c g -> (u < gcost g)%Q).
+Proof.
+  intros X gcost step ok H1 H2. split.
+  - exact (dijkstra_min X gcost step ok H1 H2).
+  - exact (prune_safe X gcost step ok H1 H2).
+Qed.
+
+(* the frontier invariant of the model's engine (Inv: every goal of the search space strictly better than the
+   incumbent lies below a queued state; once the flag is set the incumbent bounds every goal from below) is preserved
+   by a pass of the REPAIRED engine, a returned goal sets the flag, and an unrestricted pass that returns nothing has
+   set the flag.  This is the place where the unrepaired code is wrong (a popped state over a bound is dropped). *)
+Theorem c08_frontier_invariant : forall tape fa max_gamma max_backjumps s0,
+  gammas_ok (fa_gates fa) -> (0 <= cost s0)%Q ->
+  forall fuel b pd b' r, Inv fa s0 b ->
+  pass_loop tape fa max_gamma max_backjumps fuel b pd = Val (b', r) ->
+  Inv fa s0 b' /\ ub_mono b b' /\ res_ok fa s0 b' r /\
+  (unrestricted fa max_gamma max_backjumps s0 -> r = None -> min_reached b' = true) /\
+  (r = None -> upperbound b' = upperbound b).
+Proof. exact pass_loop_inv. Qed.
+
+(* ---- (3) flag soundness ---- *)
+(* relative to the guarded search space, unbounded *)
+Theorem c08_flag_sound_guarded : forall fuel i r, gammas_ok_in i -> find_cuts_full fuel i = Val r ->
+  md_minimum_reached (fr_meta r) = true ->
+  forall g, reach (fa_of i) (start_of i) g -> goal (fa_of i) g ->
+  (md_overhead (fr_meta r) <= cost g * cost g)%Q.
+Proof. exact flag_sound_guarded. Qed.
+
+(* against the specification; the hypothesis pruning_sound_for is c08_pruning_sound for this request *)
+Theorem c08_flag_sound : forall fuel i r, gammas_ok_in i ->
+  pruning_sound_for (fa_gates (fa_of i)) (fi_gate_lo i) (fi_wire_lo i) (fi_W i) (fi_max_gamma i) (nq_of i) ->
+  find_cuts_full fuel i = Val r -> md_minimum_reached (fr_meta r) = true ->
+  forall A c, assignment_cost (nq_of i) (fi_W i) (fi_gate_lo i) (fi_wire_lo i) (sgates_of (fa_gates (fa_of i))) A = Some c ->
+  (md_overhead (fr_meta r) <= c * c)%Q.
+Proof. exact flag_sound_spec. Qed.
+
+(* c08_pruning_sound as a FINITE-DOMAIN theorem (complete enumeration inside Coq): every circuit up to qubit
+   relabelling (qubits numbered in order of first use) with 1..3 two-qubit gates of gamma 3 or 7 on at most 4 qubits
+   (idle qubits included), every width limit 1..4, every cut-kind combination, every max_gamma, arbitrary
+   instruction ids / gate names.
+   c08_pruning_sound_open (not proved; never contradicted by the brute-force oracle of harness/c08.py):
+     forall gs gl wl W mg nq, gammas_ok gs -> (gl || wl = true) -> well-formed two-qubit gates on qubits < nq ->
+       pruning_sound_for gs gl wl W mg nq.                                                                   *)
+Theorem c08_pruning_sound_bounded : forall lab c used, In (c, used) (circuits_upto 4 [3%Q; 7%Q] 3) ->
+  forall nq W gl wl mg, used <= nq <= 4 -> 1 <= W <= 4 -> In (gl, wl) [(true, false); (false, true); (true, true)] ->
+  pruning_sound_for (gates_from lab 0 c) gl wl W mg nq.
+Proof. exact pruning_sound_bounded. Qed.
+
+(* the two together: on the finite domain a reported minimum is the minimum of the SPECIFICATION *)
+Theorem c08_flag_sound_bounded : forall fuel i r lab c used, In (c, used) (circuits_upto 4 [3%Q; 7%Q] 3) ->
+  fa_gates (fa_of i) = gates_from lab 0 c -> used <= nq_of i <= 4 -> 1 <= fi_W i <= 4 ->
+  In (fi_gate_lo i, fi_wire_lo i) [(true, false); (false, true); (true, true)] ->
+  find_cuts_full fuel i = Val r -> md_minimum_reached (fr_meta r) = true ->
+  forall A k, assignment_cost (nq_of i) (fi_W i) (fi_gate_lo i) (fi_wire_lo i) (sgates_of (fa_gates (fa_of i))) A = Some k ->
+  (md_overhead (fr_meta r) <= k * k)%Q.
+Proof. exact flag_sound_bounded. Qed.
+
+(* ---- (4) the unrestricted search ---- *)
+(* no backjump limit and max_gamma at least the optimum of the search space: the flag is set *)
+Theorem c08_unrestricted : forall fuel i r, gammas_ok_in i -> find_cuts_full fuel i = Val r ->
+  fi_max_backjumps i = None ->
+  (exists g, reach (fa_of i) (start_of i) g /\ goal (fa_of i) g /\ (cost g <= fi_max_gamma i)%Q) ->
+  md_minimum_reached (fr_meta r) = true.
+Proof. exact unrestricted_sets_flag. Qed.
+
+(* ... and the returned overhead does not depend on the random tape (the seed) *)
+Theorem c08_seed_independent : forall fuel1 fuel2 i t1 t2 r1 r2, gammas_ok_in i ->
+  fi_max_backjumps i = None ->
+  (exists g, reach (fa_of i) (start_of i) g /\ goal (fa_of i) g /\ (cost g <= fi_max_gamma i)%Q) ->
+  find_cuts_full fuel1 (with_tape i t1) = Val r1 -> find_cuts_full fuel2 (with_tape i t2) = Val r2 ->
+  (md_overhead (fr_meta r1) == md_overhead (fr_meta r2))%Q.
+Proof. exact seed_independent. Qed.
+
+(* the returned overhead is attained: it is that of the greedy incumbent or of a goal of the search space, and it is
+   never worse than the incumbent's (so under c08_unrestricted it is the minimum of both) *)
+Theorem c08_result_attained : forall fuel i r, gammas_ok_in i -> find_cuts_full fuel i = Val r ->
+  (greedy_of (fa_of i) (nq_of i) = Some (fr_best r) \/
+   (reach (fa_of i) (start_of i) (fr_best r) /\ goal (fa_of i) (fr_best r))) /\
+  (forall g, greedy_of (fa_of i) (nq_of i) = Some g -> (md_overhead (fr_meta r) <= cost g * cost g)%Q) /\
+  (md_overhead (fr_meta r) == cost (fr_best r) * cost (fr_best r))%Q.
+Proof. exact result_attained. Qed.
+
+(* termination: with fuel above the size of the complete 5-ary tree of depth #gates the model never runs out of fuel *)
+Theorem c08_enough_fuel : forall fuel i, tree_size 5 (length (fa_gates (fa_of i))) + 3 <= fuel ->
+  find_cuts_full fuel i <> NoFuel.
+Proof. exact enough_fuel. Qed.
+
+(* ---- non-vacuity: the F3 witness  cx(0,1); swap(1,2),  W = 2, gate cuts only ---- *)
+Definition f3_input (max_gamma : Q) (tape : nat -> Q) : fc_input :=
+  mkIn 3 0 [mkI (Gate 0) [0; 1] []; mkI (Gate 1) [1; 2] []]
+       [(0, (3%Q, Qpd2 0 None (Some (0, None)))); (1, (7%Q, Qpd2 1 None (Some (1, None))))]
+       2 true false max_gamma (Some 10000%Z) tape.
+
+Definition overhead_and_flag (o : out fc_result) : option (Q * bool) :=
+  match o with Val r => Some (md_overhead (fr_meta r), md_minimum_reached (fr_meta r)) | _ => None end.
+
+(* max_gamma = 2 is below the optimum 3: the (repaired) model returns the greedy 49 and does NOT claim a minimum *)
+Example c08_ex_f3_below : overhead_and_flag (find_cuts_full 40 (f3_input 2 (fun _ => 0%Q))) = Some (49%Q, false).
+Proof. vm_compute. reflexivity. Qed.
+
+Example c08_ex_f3_at : overhead_and_flag (find_cuts_full 40 (f3_input 3 (fun _ => 0%Q))) = Some (9%Q, true).
+Proof. vm_compute. reflexivity. Qed.
+
+(* the hypotheses of the theorems hold on the witness: gammas >= 1, the request is in the finite domain,
+   and cutting cx is a feasible assignment of cost 3 *)
+Example c08_ex_gammas : gammas_ok_in (f3_input 3 (fun _ => 0%Q)).
+Proof.
+  intros g Ig q Eq. vm_compute in Ig. destruct Ig as [<-|[<-|[]]]; cbn in Eq; injection Eq as <-; discriminate.
+Qed.
+
+Example c08_ex_domain : In ([(0, 1, 3%Q); (1, 2, 7%Q)], 3) (circuits_upto 4 [3%Q; 7%Q] 3) /\
+  fa_gates (fa_of (f3_input 3 (fun _ => 0%Q))) = gates_from (fun k => (k, 2 + k)) 0 [(0, 1, 3%Q); (1, 2, 7%Q)].
+Proof. split; [vm_compute; tauto|reflexivity]. Qed.
+
+Example c08_ex_spec :
+  assignment_cost 3 2 true false [(0, 1, Some 3%Q); (1, 2, Some 7%Q)] [CutGate; Leave] = Some (1 * 3 * 1)%Q /\
+  assignment_cost 3 2 true false [(0, 1, Some 3%Q); (1, 2, Some 7%Q)] [Leave; Leave] = None /\
+  assignment_cost 3 2 true false [(0, 1, Some 3%Q); (1, 2, Some 7%Q)] [CutLeft; Leave] = None /\
+  assignment_cost 3 2 true true [(0, 1, Some 3%Q); (1, 2, Some 7%Q)] [Leave; CutLeft] = Some (1 * 1 * 4)%Q.
+Proof. repeat split; reflexivity. Qed.
+
+Example c08_ex_unrestricted_hyp :
+  exists g, reach (fa_of (f3_input 3 (fun _ => 0%Q))) (start_of (f3_input 3 (fun _ => 0%Q))) g /\
+            goal (fa_of (f3_input 3 (fun _ => 0%Q))) g /\ (cost g <= 3)%Q.
+Proof.
+  pose (l := all_goals 2 (fa_of (f3_input 3 (fun _ => 0%Q))) (start_of (f3_input 3 (fun _ => 0%Q)))).
+  assert (E : existsb (fun g => Qleb (cost g) 3) l = true) by (vm_compute; reflexivity).
+  apply existsb_exists in E. destruct E as (g&Ig&Lg). exists g. destruct (all_goals_sound _ _ _ _ Ig) as (R&Gg).
+  split; [exact R|split; [exact Gg|now apply Qleb_true]].
+Qed.
+
+(* ---- facts obligation: the wire-cut factors of the specification are those of the source ---- *)
+Theorem c08_facts :
+  (kind_factor None CutLeft == inject_Z (Z.of_nat cf_left_wire_mult))%Q /\
+  (kind_factor None CutRight == inject_Z (Z.of_nat cf_right_wire_mult))%Q /\
+  (kind_factor None CutBoth == inject_Z (Z.of_nat cf_both_wires_mult))%Q /\
+  cf_gate_cut_uses_gate_gamma = true /\ cf_upper_bound_cost_is_gamma_ub = true /\
+  cf_stop_at_first_min = true /\ cf_overhead_is_square = true /\
+  (* BestFirstSearch.put enqueues iff cost <= upperbound ; the flag rule is  upperbound <= popped cost *)
+  bf_put_prunes_above_upperbound = true /\ bf_flag_rule = true.
+Proof. repeat split; reflexivity. Qed.
+
+(* the REPAIRED shape of the bound branch of optimization_pass (DESIGN F3): the popped state is put back unless the
+   flag is set.  On the unrepaired source this fact is `false`, the obligation fails, and the correspondence check
+   produces the failing input. *)
+Theorem c08_fact_requeue : bf_bound_branch_requeues = true.
+Proof. reflexivity. Qed.
+
+Print Assumptions c08_action_factor.
+Print Assumptions c08_cost_monotone.
+Print Assumptions c08_dijkstra.
+Print Assumptions c08_frontier_invariant.
+Print Assumptions c08_flag_sound_guarded.
+Print Assumptions c08_flag_sound.
+Print Assumptions c08_pruning_sound_bounded.
+Print Assumptions c08_flag_sound_bounded.
+Print Assumptions c08_unrestricted.
+Print Assumptions c08_seed_independent.
+Print Assumptions c08_result_attained.
+Print Assumptions c08_enough_fuel.
+Print Assumptions c08_facts.
+Print Assumptions c08_fact_requeue.
